@@ -40,58 +40,58 @@ var checks = map[string]checkCfg{
 	"C01": {Level: "exploration", Technique: "rapid stateful histories vs byte-array model + backend compare",
 		Rule:        "cases are rapid-generated histories of CREATE/WRITE/READ/SETATTR(size)/GETATTR on <=3 files with adversarial offsets/counts under a cache and transfer-size configuration; non-trivial = a READ that was checked after >=2 mutations of its file of which at least one was an overlap, a hole or a shrink-then-extend; distinct = FNV-64 of the canonical case JSON, unioned over shards",
 		Assumptions: baseAssumptions,
-		Phases:      []phase{rp("rapid", "^TestC01$", 6, 1500, 16, 12000)}},
+		Phases:      []phase{rp("rapid", "^TestC01$", 10, 2500, 16, 12000)}},
 	"C03": {Level: "exploration", Technique: "bounded-exhaustive enumeration + rapid property vs pre/post backend snapshot",
 		Rule:        "phase enum enumerates every combination of existing object kind {none,file with data,empty dir,non-empty dir,symlink to file,dangling symlink} x createmode x all 64 sattr3 set-flag combinations x size {0,3,>len} x EXCLUSIVE verifier scenario {same,other,not exclusive} (with and without warm caches); phase rapid draws data contents, sizes, cache settings and preceding lookups; non-trivial = the name already exists and the object carries data or children; distinct = FNV-64 of the case JSON",
 		Assumptions: baseAssumptions,
 		Phases: []phase{
 			{Name: "enum", Variant: "plain", Tests: "^TestC03$", QuickShards: 4, ThoroughShards: 8},
-			rp("rapid", "^TestC03Rapid$", 4, 1500, 16, 20000)}},
+			rp("rapid", "^TestC03Rapid$", 8, 3000, 16, 20000)}},
 	"C04": {Level: "exploration", Technique: "rapid histories; ghost attribute table + backend lstat comparison of every fattr3/wcc_attr sighting",
 		Rule:        "cases are rapid-generated histories (C02 namespace ops + WRITE/READ/ACCESS/SETATTR with arbitrary 32-bit mode words) over an empty or pre-seeded tree (dir, file, symlink, dangling symlink) under a drawn cache configuration; every attribute-carrying field of every reply is attributed to its object; non-trivial = some object was sighted through >=2 different procedures, or sighted after a successful SETATTR(mode) on a directory; distinct = FNV-64 of the case JSON",
 		Assumptions: append([]string{"directory sizes are not compared (implementation-specific)", "namespace verdicts that differ from the tree model abandon the case here (they are C02's violations)"}, baseAssumptions...),
-		Phases:      []phase{rp("rapid", "^TestC04$", 6, 1500, 16, 10000)}},
+		Phases:      []phase{rp("rapid", "^TestC04$", 10, 2500, 16, 10000)}},
 	"C05": {Level: "exploration", Technique: "rapid allocation histories vs path->handle liveness oracle (map level and protocol level)",
 		Rule:        "phase map: rapid histories of Allocate/Release/ReleaseAll/Get on a FileHandleMap with max in {1,2,3,5,10,37} over a path pool 3x max; phase proto: MNT/LOOKUP/CREATE/MKDIR/SYMLINK/READDIRPLUS over a tree of 18+ objects with the handle limit set to {3,5,8,12,37,default} through the shim; non-trivial = an allocation performed while the table is full and the free list is non-empty; distinct = FNV-64 of the case JSON",
 		Assumptions: append([]string{"a READDIRPLUS listing with more entries than the handle limit necessarily returns dead handles; such listings are generated but not judged (DESIGN.md C05)"}, baseAssumptions...),
-		Phases:      []phase{rp("map", "^TestC05Map$", 3, 1500, 8, 20000), rp("proto", "^TestC05Proto$", 3, 800, 8, 8000)}},
+		Phases:      []phase{rp("map", "^TestC05Map$", 6, 3000, 8, 20000), rp("proto", "^TestC05Proto$", 8, 2000, 8, 8000)}},
 	"C06": {Level: "exploration", Technique: "rapid histories with a handle-hoarding client vs ghost value->path map",
 		Rule:        "same generators as C05; the client re-uses every handle value it was ever given (GETATTR, LOOKUP through it), values are released directly and the export is Unexport()ed and re-mounted; non-trivial = a request used a value after the entry it named was evicted/released (proto) or an eviction happened (map); distinct = FNV-64 of the case JSON",
 		Assumptions: baseAssumptions,
-		Phases:      []phase{rp("map", "^TestC06Map$", 3, 1500, 8, 20000), rp("proto", "^TestC06Proto$", 3, 800, 8, 8000)}},
+		Phases:      []phase{rp("map", "^TestC06Map$", 6, 3000, 8, 20000), rp("proto", "^TestC06Proto$", 8, 2000, 8, 8000)}},
 	"C07": {Level: "exploration", Technique: "bounded-exhaustive adversarial names + rapid + native fuzz vs backend call recorder",
 		Rule:        "phase enum: every string of length <=3 over the alphabet {. / \\ NUL a space 0x80 0xFF} plus long names (254..8193 bytes) and traversal constants, each sent as the name (or symlink target / mount path) of all 13 name-taking request kinds on a fresh server pre-seeded with hostile symlinks; phase rapid: random byte strings and '..'-laden paths after a random namespace history; thorough adds a native fuzz campaign; every backend call of every request is judged; non-trivial = the string is not a plain valid component (or a pre-seeded hostile link was read); distinct = FNV-64 of the case JSON",
 		Assumptions: append([]string{"'a handle's path' is taken from the server's handle table (accumulated over the history) while absoluteness and normalisation are required of every path independently", "for MOUNT only absolute and clean is required (MNT takes a path, not a name)"}, baseAssumptions...),
 		Phases: []phase{
 			{Name: "enum", Variant: "plain", Tests: "^TestC07Enum$", QuickShards: 4, ThoroughShards: 8},
-			rp("rapid", "^TestC07$", 4, 1500, 16, 15000),
+			rp("rapid", "^TestC07$", 8, 2500, 16, 15000),
 			{Name: "fuzz", Variant: "plain", ThoroughOnly: true, Fuzz: "^FuzzC07$", FuzzSeconds: 120, ThoroughShards: 1}}},
 	"C08": {Level: "exploration", Technique: "rapid histories of all procedures (well-formed/truncated/garbage) vs backend recorder + snapshot",
 		Rule:        "cases are rapid-generated histories of NFSv3 procedures 0..23 and MOUNT procedures with well-formed arguments on pre-seeded objects, arguments truncated at a 4-byte boundary or followed by random bytes, under four credentials, interleaved with read-only on/off switches through UpdatePolicyOptions and UpdateExportOptions; non-trivial = while read-only is in force a well-formed mutating procedure (SETATTR..COMMIT) was issued by an accepted credential; anti-vacuity label counts mutations that succeed while read-write; phase drain parks one mutating request (8 procedures, optionally timed out at the RPC level) inside the backend, switches the export to read-only and releases the request: no modifying backend call may start after the switch returned; distinct = FNV-64 of the case JSON",
 		Assumptions: baseAssumptions,
-		Phases:      []phase{rp("rapid", "^TestC08$", 6, 1500, 16, 15000), rp("drain", "^TestC08Drain$", 4, 20, 8, 200)}},
+		Phases:      []phase{rp("rapid", "^TestC08$", 10, 2500, 16, 15000), rp("drain", "^TestC08Drain$", 4, 20, 8, 200)}},
 	"C09": {Level: "exploration", Technique: "rapid allow-lists/addresses; three-way differential against a bit-level membership oracle + request gate",
 		Rule:        "each case draws an allow-list of 0-4 entries (single IPv4/IPv6 addresses, CIDRs of every prefix length 0-32/0-128, IPv4-mapped forms, malformed entries), the Secure flag and 4-16 probes (client placed at network-1, network, last, last+1, inside, outside, mapped and malformed forms; ports 0,1,1023,1024,1025,65535; any program/procedure); every probe is one decision compared three ways and one full request through HandleCall; non-trivial = the list is non-empty and the decision involves a CIDR or an IPv4-mapped client; distinct = FNV-64 of the case JSON; label decisions counts single decisions. Phase conn: histories of 4-24 steps over up to 8 long-lived connections served by the real connection loop {open from an address, request on a connection, replace the allow-list/Secure flag through UpdatePolicyOptions or UpdateExportOptions}; every request is judged against the list in force when it is sent; non-trivial there = a request had to be denied after an update happened under an open connection",
 		Assumptions: append([]string{"zoned client strings and IPv4-mapped CIDR entries shorter than /96 are generated but only checked for no-over-grant and agreement between the two filters (the statement does not define them)"}, baseAssumptions...),
-		Phases:      []phase{rp("rapid", "^TestC09$", 4, 1500, 16, 30000), rp("conn", "^TestC09Conn$", 4, 250, 16, 4000)}},
+		Phases:      []phase{rp("rapid", "^TestC09$", 8, 3000, 16, 30000), rp("conn", "^TestC09Conn$", 8, 500, 16, 4000)}},
 	"C10": {Level: "exploration", Technique: "rapid credentials vs reference squash function (AuthResult, AuthContext after HandleCall, ACCESS group decision)",
 		Rule:        "each case draws a squash mode (valid, mixed case, unrecognised), a credential flavor, uid/gid from boundary and random values, 0-16 auxiliary gids, machine name length, and an AUTH_SYS body that is whole, truncated at a byte offset or declares an over-limit gid count; optionally the credential is pre-parsed and shared with the caller; non-trivial = the reference mapping differs from identity, or the credential must be rejected; distinct = FNV-64 of the case JSON",
 		Assumptions: append([]string{"machine names longer than 255 bytes are not generated (RFC 1831 bounds them, absnfs does not)", "for an unrecognised squash mode only uid/gid are judged (the statement does not define the auxiliary list)"}, baseAssumptions...),
-		Phases:      []phase{rp("rapid", "^TestC10$", 4, 3000, 16, 60000)}},
+		Phases:      []phase{rp("rapid", "^TestC10$", 8, 6000, 16, 60000)}},
 	"C11": {Level: "exploration", Technique: "rapid credentials x squash x sattr3 uid/gid combinations vs backend Chown recorder and inode owner",
 		Rule:        "each case draws a squash mode, an AUTH_SYS (or AUTH_NONE) credential and 1-8 requests among SETATTR (on file, directory, symlink), CREATE, MKDIR, SYMLINK with every uid/gid set-flag combination and values {0, caller, 4242}; non-trivial = a non-root effective caller asked for foreign ids, or an object was created; distinct = FNV-64 of the case JSON",
 		Assumptions: baseAssumptions,
-		Phases:      []phase{rp("rapid", "^TestC11$", 4, 2000, 16, 20000)}},
+		Phases:      []phase{rp("rapid", "^TestC11$", 8, 5000, 16, 20000)}},
 	"C12": {Level: "exploration", CanBeExhaustive: false, Technique: "exhaustive enumeration of the ACCESS decision space vs a decision table + rapid boundary cases",
 		Rule:        "phase enum enumerates every (mode, object type, caller relation in {owner, group, aux-group only, other, owner-and-group, root}, request mask 0..63, read-only off/on) point - quick: the 512 rwx modes (786432 points), thorough: all 4096 twelve-bit modes (6291456 points); each point is one ACCESS request after a root SETATTR installed mode and owner; phase rapid adds masks above 0x3F, arbitrary owners and auxiliary lists; every point is a distinct decision and counts as non-trivial; points are partitioned over shards by mode, so distinct counts add up",
 		Assumptions: append([]string{"absnfs stores only the 0777 bits in the backend, so setuid/setgid/sticky modes are sent but cannot influence the decision", "EXECUTE follows the x bit on files and directories (the statement restricts only LOOKUP and DELETE to directories)"}, baseAssumptions...),
 		Phases: []phase{
 			{Name: "enum", Variant: "plain", Tests: "^TestC12$", QuickShards: 8, ThoroughShards: 16},
-			rp("rapid", "^TestC12Rapid$", 4, 3000, 16, 30000)}},
+			rp("rapid", "^TestC12Rapid$", 8, 6000, 16, 30000)}},
 	"C13": {Level: "exploration", Technique: "rapid round-trip / differential-vs-nfsx / allocation-bounded codec properties + native fuzz of DecodeRPCCall and ReadRecord",
 		Rule:        "each case picks a codec (XDR string, file handle, RPC call header, AUTH_SYS body, RPC reply, record reader, record writer, hostile declared length), a length from {0..9, limit-1, limit, limit+1, random}, contents with or without NUL, an optional truncation point and a fragmentation (list of fragment sizes incl. zero-length fragments); non-trivial = length not a multiple of 4, or >=2 fragments, or a truncated / hostile-length input; distinct = FNV-64 of the case JSON; thorough adds two native fuzz campaigns",
 		Assumptions: baseAssumptions,
-		Phases: []phase{rp("rapid", "^TestC13$", 6, 4000, 16, 100000),
+		Phases: []phase{rp("rapid", "^TestC13$", 10, 8000, 16, 100000),
 			{Name: "fuzz-call", Variant: "plain", ThoroughOnly: true, Fuzz: "^FuzzC13Call$", FuzzSeconds: 90, ThoroughShards: 1},
 			{Name: "fuzz-record", Variant: "plain", ThoroughOnly: true, Fuzz: "^FuzzC13Record$", FuzzSeconds: 90, ThoroughShards: 1}}},
 	"C14": {Level: "exploration", Technique: "rapid requests x server states; every reply strictly decoded by the independent RFC 1831/1813 decoder",
@@ -124,12 +124,12 @@ var checks = map[string]checkCfg{
 	"C18": {Level: "exploration", Technique: "rapid timing sequences on a virtual clock vs exact (big.Rat) ideal token buckets; cleanup differential; handler integration",
 		Rule:        "phase limiter: each case draws a RateLimiterConfig (rates/bursts in {0,1,2,5,1000}, mount per minute in {0,1,7,60}, CleanupInterval in {1 s, 60 s, 1 h}) and 5-80 events (advance the virtual clock by {0, 1 ns, 1 ms, 1/3 s, 1 s, 7 s, 90 s, 2 h}, then AllowRequest(ip, conn) or AllowOperation(ip, type)) over 4 IPs x 3 connections x 4 operation types; phase handlers drives real READ/WRITE > 64 KiB, READDIR(PLUS) and MNT requests through HandleCall under the same clock; non-trivial = the sequence contains a refusal and a later admission; distinct = FNV-64 of the case JSON",
 		Assumptions: append([]string{"rate_limiter.go is compiled with time.Now/time.Since mechanically redirected to the harness clock (go/ast rewrite of the working-tree file at check time)", "decisions within 1e-6 tokens of the boundary are accepted either way (float64 implementation vs exact model)"}, baseAssumptions...),
-		Phases: []phase{{Name: "limiter", Variant: "clock", Tests: "^TestC18$", QuickShards: 4, QuickChecks: 2500, ThoroughShards: 16, ThoroughChecks: 50000, ReplayVariant: true},
+		Phases: []phase{{Name: "limiter", Variant: "clock", Tests: "^TestC18$", QuickShards: 8, QuickChecks: 3000, ThoroughShards: 16, ThoroughChecks: 50000, ReplayVariant: true},
 			{Name: "handlers", Variant: "clock", Tests: "^TestC18Handlers$", QuickShards: 2, QuickChecks: 600, ThoroughShards: 8, ThoroughChecks: 6000}}},
 	"C19": {Level: "exploration", Technique: "rapid abusive-vs-compliant arrival streams on a virtual clock vs ideal buckets fed by admitted requests only",
 		Rule:        "as C18 phase limiter, with one abusive client (IP 0: many arrivals with tiny gaps, far beyond its per-IP/per-connection limits) interleaved with compliant clients and a global limit above the compliant traffic; non-trivial = at least one refusal of the abusive client precedes an arrival of a compliant client; distinct = FNV-64 of the case JSON",
 		Assumptions: append([]string{"virtual clock rewrite as C18", "a client is compliant while every one of its arrivals finds >= 1 token in its own ideal per-IP and per-connection buckets (arrivals, not admissions, drain them)"}, baseAssumptions...),
-		Phases: []phase{{Name: "limiter", Variant: "clock", Tests: "^TestC19$", QuickShards: 4, QuickChecks: 2500, ThoroughShards: 16, ThoroughChecks: 50000, ReplayVariant: true}}},
+		Phases: []phase{{Name: "limiter", Variant: "clock", Tests: "^TestC19$", QuickShards: 8, QuickChecks: 3000, ThoroughShards: 16, ThoroughChecks: 50000, ReplayVariant: true}}},
 	"C20": {Level: "exploration", Technique: "rapid action lists with gated tasks vs per-task accounting inspected after the pool stopped; also under the race detector",
 		Rule:        "each case draws a pool size 1-3 and 2-14 actions over {submit a task blocking on a gate, submit a quick task (each through Submit or SubmitWait), open a gate, Resize to 1-3, Stop}; afterwards every gate is opened, pending Stop/Resize calls are awaited and the pool is stopped; non-trivial = Stop or Resize was issued while >=1 task was queued behind busy workers; distinct = FNV-64 of the case JSON. Interleavings are sampled; blocked submitters are decided by state (pool stopped, workers gone), not by a timeout verdict",
 		Assumptions: baseAssumptions,
@@ -138,12 +138,12 @@ var checks = map[string]checkCfg{
 	"C21": {Level: "exploration", Technique: "rapid operation/clock histories vs exact reference LRU (no expiry) and validity predicates (expiry); concurrent variant under the race detector",
 		Rule:        "each case picks AttrCache or DirCache, capacity 1-5, a TTL, the regime (exact LRU without clock advance, or expiry with advances below/at/above the TTL) and 3-40 operations over Put/PutNegative/Get/Invalidate/InvalidateNegativeInDir/InvalidateSubtree/Resize/UpdateTTL/ConfigureNegativeCaching/Clear/advance on 8 paths chosen to stress the direct-child test, with copy-isolation mutations after Put and Get; every case ends with a sweep over all keys; non-trivial = an eviction or expiry happened and the affected key was looked up afterwards; the concurrent phase runs 4 goroutines over shared caches under -race; distinct = FNV-64 of the case JSON",
 		Assumptions: append([]string{"cache.go is compiled with time.Now/time.Since mechanically redirected to the harness clock", "at the exact expiry instant hit and miss are both accepted", "a DirCache Put larger than maxDirSize is treated as not stored"}, baseAssumptions...),
-		Phases: []phase{{Name: "seq", Variant: "clock", Tests: "^TestC21$", QuickShards: 4, QuickChecks: 3000, ThoroughShards: 16, ThoroughChecks: 50000, ReplayVariant: true},
+		Phases: []phase{{Name: "seq", Variant: "clock", Tests: "^TestC21$", QuickShards: 8, QuickChecks: 4000, ThoroughShards: 16, ThoroughChecks: 50000, ReplayVariant: true},
 			{Name: "race", Variant: "race", Tests: "^TestC21Concurrent$", QuickShards: 2, QuickChecks: 150, ThoroughShards: 8, ThoroughChecks: 1500}}},
 	"C22": {Level: "fault_enumeration", Technique: "rapid write histories on a crash-simulating backend; every crash point of every history is enumerated and the durable image compared with the promised-data model",
 		Rule:        "each case is a rapid-generated history of CREATE / WRITE (UNSTABLE, DATA_SYNC, FILE_SYNC) / COMMIT / SETATTR(size) / READ on two files; within a history EVERY crash point is examined (before each backend operation and after each reply; counts in labels crash_points); non-trivial = the history has a crash point after at least one acknowledged non-empty FILE_SYNC write; distinct = FNV-64 of the case JSON",
 		Assumptions: append([]string{"crash model: file data is volatile until File.Sync, namespace operations and truncation are journaled (durable at once); bytes covered by the request in flight may hold the old or the new value"}, baseAssumptions...),
-		Phases:      []phase{rp("rapid", "^TestC22$", 4, 800, 16, 8000)}},
+		Phases:      []phase{rp("rapid", "^TestC22$", 8, 1000, 16, 8000)}},
 	"C23": {Level: "exploration", Technique: "rapid TransferSize configurations over a real record-marking TCP connection; FSINFO-relative acceptance oracle",
 		Rule:        "each case draws TransferSize from {1,7,512,4096,65536,100000,2^20,2^22,default}, optionally a second value applied at runtime, and 3-10 count selectors over {1, pref, pref+1, max-1, max, 65537, 70000, every power of two <= max} (max itself always included); FSINFO is asked first and every WRITE/READ count is <= the advertised maximum; non-trivial = a count at or above the preferred size or equal to the maximum was exercised; distinct = FNV-64 of the case JSON",
 		Assumptions: append([]string{"real sockets on loopback"}, baseAssumptions...),
@@ -151,19 +151,19 @@ var checks = map[string]checkCfg{
 	"C24": {Level: "exploration", Technique: "rapid update sequences with zero/negative/nil fields vs positivity, in-force=reported, serviceability and atomic-reject oracles",
 		Rule:        "each case draws 1-6 calls among UpdateExportOptions / UpdateTuningOptions / UpdatePolicyOptions whose numeric fields come from {0,-1,1,7,4096,65536,2^20}, durations from {0,-1s,1ns,1ms,5s,1h}, Timeouts from {nil, all zero, partly filled, full, negative}, RateLimitConfig from {nil, zero struct, default}, Squash from {same, empty, other case, other value}; after every call the reported configuration, the in-force values and LOOKUP/READ/WRITE through HandleCall are checked; non-trivial = the update carried a zero/negative/nil field or was rejected; distinct = FNV-64 of the case JSON",
 		Assumptions: append([]string{"keeping the previous positive value instead of the construction default is accepted"}, baseAssumptions...),
-		Phases:      []phase{rp("rapid", "^TestC24$", 4, 500, 16, 5000)}},
+		Phases:      []phase{rp("rapid", "^TestC24$", 8, 800, 16, 5000)}},
 	"C25": {Level: "exploration", Technique: "rapid offsets/sizes around the limit; size invariant + differential against an unlimited twin server",
 		Rule:        "each case draws MaxFileSize M from {1,2,100,4096,65537,2^31,2^40}, whether it is set at construction or at runtime, and 2-14 WRITE / SETATTR(size) requests whose end offset is M-1, M, M+1, 2M, 2^62, M/2, 1, M+5000 or 0; every request is also sent to a twin server without limit when it stays within M; non-trivial = a request whose resulting size is within +-1 of M; phase drain: a WRITE / SETATTR(size) producing a size between the new and the old limit is parked inside the backend by a harness gate while MaxFileSize is lowered (or switched on) through UpdatePolicyOptions / UpdateExportOptions; after the update has returned no backend call may grow the file beyond the new limit; every such case is non-trivial; distinct = FNV-64 of the case JSON",
 		Assumptions: baseAssumptions,
-		Phases:      []phase{rp("rapid", "^TestC25$", 4, 500, 16, 5000), rp("drain", "^TestC25Drain$", 4, 30, 8, 300)}},
+		Phases:      []phase{rp("rapid", "^TestC25$", 8, 1200, 16, 5000), rp("drain", "^TestC25Drain$", 4, 30, 8, 300)}},
 	"C26": {Level: "exploration", Technique: "rapid directories x count values; cookie-following client; set equality + XDR size bound oracle",
 		Rule:        "each case draws a directory of 0-80 entries with name lengths over 1..255 (many at 255), READDIR or READDIRPLUS, and count / (dircount, maxcount) from {0,1,100,103,104,127,128,129,131,132,200,300,332,400,512,1024,4096,8192,65536,2^32-1}; the client follows cookies until eof, TOOSMALL or n+3 calls; non-trivial = the listing needed >=2 pages or the limit was below one entry (TOOSMALL); distinct = FNV-64 of the case JSON",
 		Assumptions: append([]string{"the size limit is compared with the encoded resok without the status word (the more lenient reading of RFC 1813); dircount is not judged", "when nothing remains to be listed and even the resok header exceeds count, OK and TOOSMALL are both accepted"}, baseAssumptions...),
-		Phases:      []phase{rp("rapid", "^TestC26$", 4, 500, 16, 5000)}},
+		Phases:      []phase{rp("rapid", "^TestC26$", 8, 800, 16, 5000)}},
 	"C27": {Level: "exploration", Technique: "rapid portmap/rpcbind call sequences from loopback and non-loopback addresses vs a registry model + strict reply decoding",
 		Rule:        "each case is a sequence of 2-25 calls through Portmapper.handleCall with the remote address drawn from {127.0.0.1, 127.9.9.9, ::1, ::ffff:127.0.0.1, 10.0.0.5, 192.168.1.7, 2001:db8::1, fe80::1%eth0, ::ffff:10.0.0.5, 128.0.0.1}, protocol version 1-5, procedure NULL/SET/UNSET/GETPORT|GETADDR/DUMP/CALLIT/9, (program, version, protocol) from a pool of 12, IPv4 and IPv6 universal addresses, malformed addresses and truncated arguments; non-trivial = a SET/UNSET from a non-loopback address, or a DUMP after >=2 changes; distinct = FNV-64 of the case JSON",
 		Assumptions: append([]string{"SET/UNSET calls that the server accepts although their arguments are malformed are not judged (the model is resynchronised)"}, baseAssumptions...),
-		Phases:      []phase{rp("rapid", "^TestC27$", 4, 1500, 16, 20000)}},
+		Phases:      []phase{rp("rapid", "^TestC27$", 8, 5000, 16, 20000)}},
 	"C30": {Level: "exploration", Technique: "rapid TLS configurations x real TLS clients pinned to each version/certificate; end-to-end success predicates; rotation probe",
 		Rule:        "each case draws MinVersion/MaxVersion from {0, TLS1.0, 1.1, 1.2, 1.3}, ClientAuth 0-4, CAFile {none, the CA, missing}, cipher suites {nil, defaults, TLS1.2-only ECDSA, legacy ids} and 2-6 clients (pinned to TLS 1.0-1.3, presenting no / CA-signed / self-signed / foreign-CA certificate); for configurations that New and Listen accept every client tries to get a NULL RPC answered over TLS; a quarter of the cases also perform the documented certificate rotation; non-trivial = an accepted configuration met a client offering < TLS1.2 or a non-CA certificate, or a rotation was performed; distinct = FNV-64 of the case JSON",
 		Assumptions: append([]string{"real TLS handshakes on loopback with certificates generated at run time (ECDSA P-256)"}, baseAssumptions...),
@@ -171,10 +171,10 @@ var checks = map[string]checkCfg{
 	"C29": {Level: "exploration", Technique: "rapid concurrent histories with backend jitter under the race detector; porcupine linearizability check against a sequential tree+file model; final server-vs-backend walk and handle-table check; generated cache-fill schedules (reader parked after its k-th backend call while a mutation completes)",
 		Rule:        "each case runs 2-4 client goroutines x 3-6 requests (LOOKUP, CREATE, MKDIR, REMOVE, RENAME, WRITE, READ, GETATTR, SETATTR(size), READDIR) on names private to each client inside one shared directory and through shared handles, with seed-derived Gosched/microsecond sleeps injected before backend calls, under minimal-TTL or caches-on configuration, in a -race binary; non-trivial = at least two requests overlapped in time; distinct = FNV-64 of the case JSON. Interleavings are sampled by the Go scheduler plus jitter, not enumerated",
 		Assumptions: append([]string{"vfs is the thread-safe backend the property assumes", "with caches on a read-type reply may match any earlier state of the name (staleness allowed), a mutation reply may not"}, baseAssumptions...),
-		Phases: []phase{{Name: "race", Variant: "race", Tests: "^TestC29$", QuickShards: 6, QuickChecks: 80, ThoroughShards: 16, ThoroughChecks: 1500, ReplayVariant: true},
-			{Name: "fill", Variant: "race", Tests: "^TestC29Fill$", QuickShards: 4, QuickChecks: 400, ThoroughShards: 16, ThoroughChecks: 4000, ReplayVariant: true}}},
+		Phases: []phase{{Name: "race", Variant: "race", Tests: "^TestC29$", QuickShards: 8, QuickChecks: 100, ThoroughShards: 16, ThoroughChecks: 1500, ReplayVariant: true},
+			{Name: "fill", Variant: "race", Tests: "^TestC29Fill$", QuickShards: 8, QuickChecks: 600, ThoroughShards: 16, ThoroughChecks: 4000, ReplayVariant: true}}},
 	"C02": {Level: "exploration", Technique: "rapid histories vs POSIX tree model + cached-vs-uncached differential",
 		Rule:        "cases are rapid-generated sequential histories of LOOKUP/CREATE/MKDIR/SYMLINK/REMOVE/RMDIR/RENAME/READDIR(PLUS)/GETATTR/READLINK over names {a,b,c} to depth 3, addressed through every handle ever issued (stale ones included); each history runs under the all-off baseline and k cached configurations (quick 3, thorough 6 of 15); non-trivial = a read-type request on a name or directory affected by an earlier successful mutation, executed under a configuration with at least one cache on; distinct = FNV-64 of the case JSON",
 		Assumptions: append([]string{"documented latitude L1-L7 of DESIGN.md §5 C02 (REMOVE of empty dir, UNCHECKED/EXCLUSIVE on existing objects, error code identity not compared against the model, path-bound handles)"}, baseAssumptions...),
-		Phases:      []phase{rp("rapid", "^TestC02$", 6, 1500, 16, 10000)}},
+		Phases:      []phase{rp("rapid", "^TestC02$", 10, 2000, 16, 10000)}},
 }
